@@ -1,9 +1,12 @@
 package main
 
 import (
+	"bufio"
 	"bytes"
+	"compress/flate"
 	"context"
 	"fmt"
+	"github.com/gobwas/ws/wsflate"
 	"github.com/gobwas/ws/wsutil"
 	"io"
 	"net"
@@ -129,6 +132,41 @@ func c16f(c *ctx) {
 					emit(map[string]interface{}{"k": "frame", "key": key, "cut": cut, "total": len(wire), "hn": hn, "end": e.name,
 						"err": vh.ErrClass(err), "payOK": payOK, "got": len(f.Payload), "herr": vh.ErrClass(herr)},
 						fmt.Sprintf("frame/%s/%s/%v/%s", region, e.name, (cut-hn)%mib == 0 && cut > hn, vh.ErrClass(err)))
+				}
+			}
+		}
+	}
+	// ---- (a2) a compressed message (several flushes: block boundaries inside) whose source fails - not a clean
+	// end - at every offset: the decompression reader must pass the failure on, whatever it has inflated so far
+	{
+		var cb bytes.Buffer
+		fw := wsflate.NewWriter(&cb, func(x io.Writer) wsflate.Compressor { f, _ := flate.NewWriter(x, 6); return f })
+		for i := 0; i < 4; i++ {
+			fw.Write(bytes.Repeat([]byte{byte('a' + i)}, 9+i))
+			fw.Flush()
+		}
+		fw.Write([]byte("the end"))
+		fw.Close()
+		comp := cb.Bytes()
+		for cut := 0; cut <= len(comp); cut++ {
+			for _, e := range []struct {
+				name    string
+				err     error
+				dataErr bool
+			}{{"err", vh.ErrInjected, false}, {"uerr", io.ErrUnexpectedEOF, false}, {"errdata", vh.ErrInjected, true}} {
+				for bi, byByte := range []bool{false, true} {
+					key := fmt.Sprintf("flate/%d/%s/%v", cut, e.name, byByte)
+					if !vh.Only(key) {
+						continue
+					}
+					var src io.Reader = &vh.ChunkReader{Data: comp[:cut], Sizes: chunkings[(cut+bi)%3], End: e.err, DataErr: e.dataErr}
+					if byByte {
+						src = bufio.NewReaderSize(src, 16) // (an io.ByteReader: flate then reads byte by byte)
+					}
+					fr := wsflate.NewReader(src, func(x io.Reader) wsflate.Decompressor { return flate.NewReader(x) })
+					got, err := io.ReadAll(fr)
+					emit(map[string]interface{}{"k": "flate", "key": key, "cut": cut, "total": len(comp), "end": e.name, "err": vh.ErrClass(err), "got": len(got)},
+						fmt.Sprintf("flate/%s/%v/%s", e.name, byByte, vh.ErrClass(err)))
 				}
 			}
 		}
